@@ -1,3 +1,378 @@
-From Coq Require Import ZArith List Bool Lia.
+(* C08 lemmas. *)
+From Coq Require Import ZArith List Bool Lia Permutation Sorted Arith.
 From OG Require Import C08.Model.
 Import ListNotations.
+
+(* ------------------------------------------------------------------------------------------------ *)
+(* 1. Any state machine fed chunk by chunk (state carried over) = the machine fed the whole stream.    *)
+Section MachineFacts.
+  Context {X Y St : Type}.
+  Variable step : St -> X -> St * list Y.
+
+  Lemma run_app : forall a b st,
+    run step st (a ++ b) =
+    let '(st1, o1) := run step st a in let '(st2, o2) := run step st1 b in (st2, o1 ++ o2).
+  Proof.
+    induction a as [|x a IH]; intros b st; cbn [run app].
+    - destruct (run step st b); reflexivity.
+    - destruct (step st x) as [s1 o1]. rewrite IH.
+      destruct (run step s1 a) as [s2 o2]. destruct (run step s2 b) as [s3 o3].
+      now rewrite app_assoc.
+  Qed.
+
+  Lemma run_chunks_concat : forall cs st, run_chunks step st cs = run step st (concat cs).
+  Proof.
+    induction cs as [|c cs IH]; intros st; cbn [run_chunks concat run]; [reflexivity|].
+    rewrite run_app. destruct (run step st c) as [s1 o1]. rewrite IH. reflexivity.
+  Qed.
+End MachineFacts.
+
+Lemma cut_concat : forall {X} (sizes : list nat) (l : list X), concat (cut sizes l) = l.
+Proof.
+  intros X sizes. induction sizes as [|n sizes IH]; intros l.
+  - destruct l; cbn; [reflexivity | now rewrite app_nil_r].
+  - destruct l as [|x l]; [reflexivity|].
+    change (cut (n :: sizes) (x :: l)) with (firstn (S n) (x :: l) :: cut sizes (skipn (S n) (x :: l))).
+    cbn [concat]. rewrite IH. apply firstn_skipn.
+Qed.
+
+Lemma cut_nonempty : forall {X} (sizes : list nat) (l : list X), Forall (fun c => c <> []) (cut sizes l).
+Proof.
+  intros X sizes. induction sizes as [|n sizes IH]; intros l.
+  - destruct l; cbn; constructor; [discriminate | constructor].
+  - destruct l as [|x l]; [constructor|].
+    change (cut (n :: sizes) (x :: l)) with (firstn (S n) (x :: l) :: cut sizes (skipn (S n) (x :: l))).
+    constructor; [cbn; discriminate | apply IH].
+Qed.
+
+Theorem machine_chunking_invariant : forall {X Y St} (step : St -> X -> St * list Y) sizes st xs,
+  run_chunks step st (cut sizes xs) = run step st xs.
+Proof. intros. rewrite run_chunks_concat, cut_concat. reflexivity. Qed.
+
+(* ------------------------------------------------------------------------------------------------ *)
+(* 2. Aggregation with one-chunk look-ahead.                                                           *)
+Section AggFacts.
+  Context {K V A : Type}.
+  Variable keq : K -> K -> bool.
+  Variable inj : V -> A.
+  Variable op : A -> A -> A.
+  Notation agg_go := (agg_go keq inj op).
+  Notation agg_step := (agg_step keq inj op).
+
+  Lemma agg_go_run : forall c rest p,
+    agg_go p (c ++ rest) = snd (run agg_step p c) ++ agg_go (fst (run agg_step p c)) rest.
+  Proof.
+    induction c as [|[k v] c IH]; intros rest p; cbn [app run]; [reflexivity|].
+    destruct p as [[k0 a]|]; cbn [agg_step Model.agg_step Model.agg_go].
+    - destruct (keq k k0).
+      + specialize (IH rest (Some (k0, op a (inj v)))).
+        destruct (run agg_step (Some (k0, op a (inj v))) c) as [s o]. cbn in *. exact IH.
+      + specialize (IH rest (Some (k, inj v))).
+        destruct (run agg_step (Some (k, inj v)) c) as [s o]. cbn in *. now rewrite IH.
+    - specialize (IH rest (Some (k, inj v))).
+      destruct (run agg_step (Some (k, inj v)) c) as [s o]. cbn in *. exact IH.
+  Qed.
+
+  (* a pending group can be emitted at once when the rest of the stream does not continue it *)
+  Lemma agg_go_flush : forall p rest,
+    same_group keq p rest = false ->
+    agg_go p rest = match p with Some x => [x] | None => [] end ++ agg_go None rest.
+  Proof.
+    intros [[k0 a]|] rest H; [|reflexivity].
+    destruct rest as [|[k v] rest]; [reflexivity|].
+    cbn in H. cbn [Model.agg_go]. rewrite H. reflexivity.
+  Qed.
+
+  Lemma same_group_concat : forall (p : option (K * A)) c (r : list (list (K * V))),
+    c <> [] -> same_group keq p (concat (c :: r)) = same_group keq p c.
+  Proof.
+    intros p c r Hc. destruct c as [|[k v] c]; [congruence|]. destruct p as [[k0 a]|]; reflexivity.
+  Qed.
+
+  Lemma agg_chunks_go : forall cs p,
+    Forall (fun c => c <> []) cs -> (cs = [] -> p = None) ->
+    concat (agg_chunks keq inj op (same_group keq) p cs) = agg_go p (concat cs).
+  Proof.
+    induction cs as [|c cs IH]; intros p Hne Hp.
+    - rewrite (Hp eq_refl). reflexivity.
+    - inversion Hne as [|c' cs' Hc Hcs]; subst.
+      cbn [agg_chunks Model.agg_chunks concat].
+      rewrite agg_go_run.
+      destruct (run agg_step p c) as [p1 out]. cbn [fst snd].
+      destruct (same_group keq p1 match cs with n :: _ => n | [] => [] end) eqn:E.
+      + cbn [concat]. rewrite IH; [reflexivity | assumption |].
+        intros ->. destruct p1 as [[k0 a]|]; cbn in E; discriminate.
+      + assert (F : same_group keq p1 (concat cs) = false).
+        { destruct cs as [|n cs']; [destruct p1 as [[? ?]|]; reflexivity|].
+          inversion Hcs; subst. rewrite same_group_concat; assumption. }
+        rewrite (agg_go_flush p1 (concat cs) F).
+        cbn [concat]. rewrite IH; [| assumption | reflexivity].
+        now rewrite app_assoc.
+  Qed.
+
+  Theorem agg_chunking_invariant_lemma : forall sizes rows,
+    concat (agg_chunks keq inj op (same_group keq) None (cut sizes rows)) = agg_spec keq inj op rows.
+  Proof.
+    intros. rewrite agg_chunks_go; [now rewrite cut_concat | apply cut_nonempty | reflexivity].
+  Qed.
+End AggFacts.
+
+(* the look-ahead is needed: a look-ahead that never reports a continuation splits a group at a chunk boundary *)
+Example agg_lookahead_needed :
+  concat (agg_chunks Z.eqb (fun v : Z => v) Z.add (fun _ _ => false) None [[(1%Z, 2%Z)]; [(1%Z, 3%Z)]])
+  <> agg_spec Z.eqb (fun v : Z => v) Z.add [(1%Z, 2%Z); (1%Z, 3%Z)].
+Proof. vm_compute. discriminate. Qed.
+
+(* ------------------------------------------------------------------------------------------------ *)
+(* 3. limit / offset over a chunked stream                                                             *)
+Local Open Scope nat_scope.
+Lemma limit_run : forall {X} (off lim : nat) (xs : list X) seen,
+  snd (run (limit_step off lim) seen xs) = firstn (lim - (seen - off)) (skipn (off - seen) xs).
+Proof.
+  intros X off lim xs. induction xs as [|x xs IH]; intros seen.
+  - cbn. now rewrite skipn_nil, firstn_nil.
+  - cbn [run limit_step]. specialize (IH (S seen)).
+    destruct (run (limit_step off lim) (S seen) xs) as [s o]. cbn [snd] in *. rewrite IH.
+    destruct (Nat.leb off seen) eqn:E1; cbn [andb].
+    + apply Nat.leb_le in E1.
+      replace (off - seen) with 0 by lia. replace (off - S seen) with 0 by lia. cbn [skipn].
+      destruct (Nat.ltb seen (off + lim)) eqn:E2.
+      * apply Nat.ltb_lt in E2. replace (lim - (seen - off)) with (S (lim - (S seen - off))) by lia. reflexivity.
+      * apply Nat.ltb_ge in E2. replace (lim - (seen - off)) with 0 by lia.
+        replace (lim - (S seen - off)) with 0 by lia. reflexivity.
+    + apply Nat.leb_gt in E1.
+      replace (off - seen) with (S (off - S seen)) by lia. cbn [skipn app].
+      replace (S seen - off) with 0 by lia. replace (seen - off) with 0 by lia. reflexivity.
+Qed.
+
+Theorem limit_chunking_invariant_lemma : forall {X} (off lim : nat) sizes (xs : list X),
+  snd (run_chunks (limit_step off lim) 0 (cut sizes xs)) = firstn lim (skipn off xs).
+Proof.
+  intros. rewrite machine_chunking_invariant, limit_run.
+  cbn. now rewrite !Nat.sub_0_r.
+Qed.
+
+(* ------------------------------------------------------------------------------------------------ *)
+(* 4. fill: the machine over the existing bucket rows of one group, then the tail, equals the L1
+      definition (enumerate every bucket of the range, then fill cell-wise)                           *)
+Lemma fill_rows_app : forall m aggs a b prev,
+  fill_rows m aggs prev (a ++ b) =
+  fill_rows m aggs prev a ++
+  fill_rows m aggs (fold_left (fun p r => snd (fill_cells m aggs p (snd r))) a prev) b.
+Proof.
+  induction a as [|[t cs] a IH]; intros b prev; cbn [app fill_rows fold_left snd]; [reflexivity|].
+  destruct (fill_cells m aggs prev cs) as [out p2] eqn:E. cbn [snd]. rewrite IH. reflexivity.
+Qed.
+
+Theorem fill_chunking_invariant_lemma : forall i m aggs sizes st rows,
+  run_chunks (fill_step i m aggs) st (cut sizes rows) = run (fill_step i m aggs) st rows.
+Proof. intros. apply machine_chunking_invariant. Qed.
+
+(* ------------------------------------------------------------------------------------------------ *)
+(* 5. partial aggregates: independence of the partition of the input over parallel readers            *)
+Section Monoid.
+  Context {A : Type}.
+  Variable op : A -> A -> A.
+  Variable e : A.
+  Hypothesis op_assoc : forall a b c, op a (op b c) = op (op a b) c.
+  Hypothesis op_comm : forall a b, op a b = op b a.
+  Hypothesis op_unit : forall a, op e a = a.
+
+  Definition mfold (l : list A) : A := fold_right op e l.
+
+  Lemma mfold_app : forall a b, mfold (a ++ b) = op (mfold a) (mfold b).
+  Proof.
+    unfold mfold. induction a as [|x a IH]; intros b; cbn [app fold_right].
+    - symmetry. apply op_unit.
+    - rewrite IH. apply op_assoc.
+  Qed.
+
+  Lemma mfold_perm : forall a b, Permutation a b -> mfold a = mfold b.
+  Proof.
+    unfold mfold. induction 1; cbn [fold_right].
+    - reflexivity.
+    - now f_equal.
+    - rewrite !op_assoc. f_equal. apply op_comm.
+    - etransitivity; eassumption.
+  Qed.
+
+  Lemma mfold_concat : forall parts, mfold (map mfold parts) = mfold (concat parts).
+  Proof.
+    induction parts as [|p parts IH]; cbn [map concat]; [reflexivity|].
+    rewrite mfold_app. rewrite <- IH. reflexivity.
+  Qed.
+
+  (* any partition (and any order inside and between the parts) of the same multiset gives the same aggregate *)
+  Theorem split_invariant_monoid : forall parts all,
+    Permutation (concat parts) all -> mfold (map mfold parts) = mfold all.
+  Proof. intros. rewrite mfold_concat. now apply mfold_perm. Qed.
+
+  (* reading the stream backwards (descending scan) gives the same aggregate *)
+  Lemma mfold_rev : forall l, mfold (rev l) = mfold l.
+  Proof. intros. apply mfold_perm. apply Permutation_sym, Permutation_rev. Qed.
+End Monoid.
+
+(* the partial-aggregate monoids of the core functions *)
+(* count, sum: (Z, +, 0); mean: pairs (sum, count) *)
+Definition pair_add (a b : Z * Z) : Z * Z := (fst a + fst b, snd a + snd b)%Z.
+Lemma pair_add_assoc : forall a b c, pair_add a (pair_add b c) = pair_add (pair_add a b) c.
+Proof. intros [] [] []; unfold pair_add; cbn; f_equal; lia. Qed.
+Lemma pair_add_comm : forall a b, pair_add a b = pair_add b a.
+Proof. intros [] []; unfold pair_add; cbn; f_equal; lia. Qed.
+Lemma pair_add_unit : forall a, pair_add (0, 0)%Z a = a.
+Proof. intros []; unfold pair_add; cbn; f_equal; lia. Qed.
+
+(* selectors: option point with the preference relation of Model.better; None is the unit *)
+Definition sel_op (fn : aggfn) (a b : option point) : option point :=
+  match a, b with
+  | None, _ => b
+  | _, None => a
+  | Some x, Some y => if better fn y x then Some y else if better fn x y then Some x
+                      else Some x
+  end.
+
+Lemma better_total_min : forall x y : point, better FMin x y = false -> better FMin y x = false -> x = y.
+Proof.
+  intros [t v] [t' v']; unfold better; cbn [fst snd]; intros H1 H2.
+  apply orb_false_iff in H1 as [A1 B1]. apply orb_false_iff in H2 as [A2 B2].
+  apply Z.ltb_ge in A1, A2. assert (v = v') by lia. subst.
+  rewrite Z.eqb_refl in B1, B2. cbn in B1, B2. apply Z.ltb_ge in B1, B2. f_equal; lia.
+Qed.
+
+(* ------------------------------------------------------------------------------------------------ *)
+(* 6. k-way merge: sorted, and a permutation of the inputs                                             *)
+Lemma merge2_perm : forall a b, Permutation (merge2 a b) (a ++ b).
+Proof.
+  induction a as [|x a IHa]; intros b.
+  - destruct b; cbn; apply Permutation_refl.
+  - induction b as [|y b IHb].
+    + cbn. rewrite app_nil_r. apply Permutation_refl.
+    + cbn [merge2]. destruct (arow_leb x y).
+      * cbn [app]. constructor. apply IHa.
+      * change (Permutation (y :: merge2 (x :: a) b) ((x :: a) ++ y :: b)).
+        eapply Permutation_trans; [constructor; apply IHb|].
+        apply Permutation_middle.
+Qed.
+
+Theorem merge_k_perm : forall ls, Permutation (merge_k ls) (concat ls).
+Proof.
+  induction ls as [|l ls IH]; cbn; [constructor|].
+  eapply Permutation_trans; [apply merge2_perm|]. now apply Permutation_app_head.
+Qed.
+
+(* -- sortedness of the merge *)
+Local Open Scope Z_scope.
+Lemma cell_compare_antisym : forall a b, cell_compare b a = CompOpp (cell_compare a b).
+Proof.
+  intros [|x|n d] [|y|n' d']; cbn; try reflexivity.
+  - apply Z.compare_antisym.
+  - rewrite (Z.compare_antisym n n'). destruct (n ?= n'); cbn; try reflexivity. apply Z.compare_antisym.
+Qed.
+
+Lemma cells_compare_antisym : forall a b, cells_compare b a = CompOpp (cells_compare a b).
+Proof.
+  induction a as [|x a IH]; intros [|y b]; cbn; try reflexivity.
+  rewrite (cell_compare_antisym x y). destruct (cell_compare x y); cbn; auto.
+Qed.
+
+Lemma arow_compare_antisym : forall a b, arow_compare b a = CompOpp (arow_compare a b).
+Proof.
+  intros [t c] [t' c']; unfold arow_compare; cbn [fst snd].
+  rewrite (Z.compare_antisym t t'). destruct (t ?= t'); cbn; try reflexivity. apply cells_compare_antisym.
+Qed.
+
+Lemma arow_leb_total : forall a b, arow_leb a b = false -> arow_leb b a = true.
+Proof.
+  intros a b. unfold arow_leb. rewrite (arow_compare_antisym a b).
+  destruct (arow_compare a b); cbn; congruence.
+Qed.
+
+Definition row_le (a b : arow) : Prop := arow_leb a b = true.
+
+Lemma merge2_cons : forall x a y b,
+  merge2 (x :: a) (y :: b) = if arow_leb x y then x :: merge2 a (y :: b) else y :: merge2 (x :: a) b.
+Proof. reflexivity. Qed.
+Lemma merge2_nil_r : forall a, merge2 a [] = a.
+Proof. destruct a; reflexivity. Qed.
+
+Lemma merge2_hdrel : forall z a b, HdRel row_le z a -> HdRel row_le z b -> HdRel row_le z (merge2 a b).
+Proof.
+  intros z a b Ha Hb. destruct a as [|x a]; [destruct b; exact Hb|].
+  destruct b as [|y b]; [rewrite merge2_nil_r; exact Ha|].
+  rewrite merge2_cons. destruct (arow_leb x y); constructor.
+  - now inversion Ha.
+  - now inversion Hb.
+Qed.
+
+Lemma merge2_sorted : forall a b, Sorted row_le a -> Sorted row_le b -> Sorted row_le (merge2 a b).
+Proof.
+  induction a as [|x a IHa]; intros b Sa Sb; [destruct b; exact Sb|].
+  induction b as [|y b IHb]; [rewrite merge2_nil_r; exact Sa|].
+  rewrite merge2_cons. destruct (arow_leb x y) eqn:E.
+  - inversion Sa; subst. constructor; [apply IHa; assumption|].
+    apply merge2_hdrel; [assumption | constructor; exact E].
+  - inversion Sb; subst. constructor; [apply IHb; assumption|].
+    apply merge2_hdrel; [constructor; apply arow_leb_total; exact E | assumption].
+Qed.
+
+Theorem merge_k_sorted : forall ls, Forall (Sorted row_le) ls -> Sorted row_le (merge_k ls).
+Proof.
+  induction ls as [|l ls IH]; intros H; cbn; [constructor|].
+  inversion H; subst. apply merge2_sorted; auto.
+Qed.
+
+(* ------------------------------------------------------------------------------------------------ *)
+(* 7. descending = ascending reversed, for the reference semantics (queries without limit/offset)     *)
+Definition set_desc (q : query) (d : bool) : query :=
+  mkQ (q_sel q) (q_tmin q) (q_tmax q) (q_pred q) (q_group q) (q_interval q) (q_fill q) (q_limit q) (q_offset q) d.
+
+Definition rev_answer (a : answer) : answer := rev (map (fun g => (fst g, rev (snd g))) a).
+
+Lemma group_rows_desc : forall q ms,
+  group_rows false (set_desc q true) ms = rev (group_rows false (set_desc q false) ms).
+Proof.
+  intros q ms. unfold group_rows. cbn [q_sel set_desc q_desc].
+  destruct (q_sel q) as [cols|aggs]; [reflexivity|].
+  unfold agg_group. cbn [q_interval q_tmin q_desc q_fill set_desc andb].
+  change (agg_cols_of (set_desc q true) aggs ms) with (agg_cols_of (set_desc q false) aggs ms).
+  change (lo_of (set_desc q true)) with (lo_of (set_desc q false)).
+  change (hi_of (set_desc q true)) with (hi_of (set_desc q false)).
+  destruct (q_interval q =? 0).
+  - destruct (forallb is_null _); reflexivity.
+  - destruct (prefill_rows _ _); [reflexivity|].
+    destruct (q_fill q); reflexivity.
+Qed.
+
+Definition nonempty {X Y} (g : X * list Y) : bool := match snd g with [] => false | _ => true end.
+
+Lemma nonempty_rev : forall {X} (k : X) (l : list arow), nonempty (k, rev l) = nonempty (k, l).
+Proof.
+  intros X k [|a l]; [reflexivity|]. unfold nonempty. cbn [snd rev].
+  destruct (rev l ++ [a]) eqn:E; [|reflexivity].
+  apply app_eq_nil in E. destruct E; discriminate.
+Qed.
+
+Lemma filter_map_rev_rows : forall {X} (f : X -> list arow) (ks : list X),
+  filter nonempty (map (fun k => (k, rev (f k))) ks) =
+  map (fun g => (fst g, rev (snd g))) (filter nonempty (map (fun k => (k, f k)) ks)).
+Proof.
+  intros X f. induction ks as [|k ks IH]; [reflexivity|].
+  cbn [map filter]. rewrite nonempty_rev.
+  destruct (nonempty (k, f k)); cbn [map fst snd]; rewrite IH; reflexivity.
+Qed.
+
+Theorem desc_is_rev_asc_lemma : forall db q,
+  has_limit q = false ->
+  eval_query db (set_desc q true) = rev_answer (eval_query db (set_desc q false)).
+Proof.
+  intros db q HL. unfold eval_query, eval_gen.
+  change (has_limit (set_desc q true)) with (has_limit q).
+  change (has_limit (set_desc q false)) with (has_limit q). rewrite HL.
+  cbn [q_desc set_desc].
+  change (keys_of (set_desc q true) db) with (keys_of (set_desc q false) db).
+  unfold rev_answer. f_equal.
+  rewrite (map_ext (fun k => (k, group_rows false (set_desc q true) (members (set_desc q true) db k)))
+                   (fun k => (k, rev (group_rows false (set_desc q false) (members (set_desc q false) db k))))).
+  - apply (filter_map_rev_rows (fun k => group_rows false (set_desc q false) (members (set_desc q false) db k))).
+  - intros k. rewrite group_rows_desc. reflexivity.
+Qed.
